@@ -5,6 +5,8 @@ import (
 	"fmt"
 	"math"
 	"math/big"
+	"regexp"
+	"strconv"
 	"strings"
 	. "verifharness/hlib"
 
@@ -192,7 +194,135 @@ func runC10(c *Ctx) {
 			evals += 4
 		}
 	}
+	c10Literals(c)
+	c10Floats(c)
 	c.Stats["operands"] = len(ints)
 	c.Stats["evaluations"] = evals
 	c.Stats["pairs"] = npairs
+}
+
+var jsonNumRe = regexp.MustCompile(`^-?(0|[1-9][0-9]*)(\.[0-9]+)?([eE][+-]?[0-9]+)?$`)
+
+// c10Literals: a number that reaches the output untouched is printed with the digits it had in the
+// input (implementation-only oracle; the input is decoded as the command does: UseNumber).
+func c10Literals(c *Ctx) {
+	r := c.Rng
+	digits := func(n int, first bool) string {
+		var sb strings.Builder
+		for i := 0; i < n; i++ {
+			d := r.Intn(10)
+			if i == 0 && first && n > 1 && d == 0 {
+				d = 1 + r.Intn(9)
+			}
+			sb.WriteByte(byte('0' + d))
+		}
+		return sb.String()
+	}
+	progs := []struct{ src, wrapL, wrapR string }{
+		{".", "", ""}, {".[0]", "[", "]"}, {".a", `{"a":`, "}"}, {"[.[]]|.[0]", "[", "]"}, {". as $x|$x", "", ""},
+		{"if true then . else 0 end", "", ""}, {"[.]|first", "", ""}, {"{a:.}|.a", "", ""}, {"(., 1)|select(. != 1)", "", ""}}
+	codes := make([]*gojq.Code, len(progs))
+	for i, p := range progs {
+		codes[i] = c10Compile(p.src)
+	}
+	nlit := 400
+	if c.Tier == "thorough" {
+		nlit = 20000
+	}
+	for i := 0; i < nlit; i++ {
+		lit := ""
+		if r.Chance(1, 2) {
+			lit = "-"
+		}
+		lit += digits(1+r.Intn([]int{3, 18, 20, 45, 70}[r.Intn(5)]), true)
+		shape := r.Intn(4)
+		if shape == 1 || shape == 3 {
+			lit += "." + digits(1+r.Intn(30), false)
+		}
+		if shape >= 2 {
+			lit += []string{"e", "E"}[r.Intn(2)] + []string{"", "+", "-"}[r.Intn(3)] + digits(1+r.Intn(3), false)
+		}
+		if !jsonNumRe.MatchString(lit) {
+			continue
+		}
+		for pi, p := range progs {
+			dec := json.NewDecoder(strings.NewReader(p.wrapL + lit + p.wrapR))
+			dec.UseNumber()
+			var in any
+			if err := dec.Decode(&in); err != nil {
+				continue
+			}
+			out := c10Run1(codes[pi], in)
+			bs, err := gojq.Marshal(out)
+			c.Count("literal")
+			c.Stats["literal_evals"] = i*len(progs) + pi + 1
+			if err != nil || string(bs) != lit {
+				c.Violation("literal %s through `%s` printed as %s (err %v)", lit, p.src, string(bs), err)
+			}
+		}
+	}
+}
+
+// c10Floats: computed floats print in shortest round-trip form and every emitted number is valid JSON
+// (NaN as null, infinities saturated) — implementation-only oracle against strconv.
+func c10Floats(c *Ctx) {
+	r := c.Rng
+	id := c10Compile(". + 0")
+	n := 3000
+	if c.Tier == "thorough" {
+		n = 200000
+	}
+	special := []float64{0, math.Copysign(0, -1), math.NaN(), math.Inf(1), math.Inf(-1), math.MaxFloat64, -math.MaxFloat64,
+		math.SmallestNonzeroFloat64, 1e-7, 1e-6, 9.999999e-7, 1e21, 9.99999999999e20, 1e-9, 1.5e-9, 1e-10, 1e22, 123456789012345680000, 0.1, 1.0 / 3}
+	for i := 0; i < n; i++ {
+		var f float64
+		if i < len(special) {
+			f = special[i]
+		} else if r.Chance(1, 3) {
+			f = math.Float64frombits(r.Next())
+		} else {
+			f = (float64(r.Intn(2000000)) - 1000000) * math.Pow(10, float64(r.Intn(60)-30))
+		}
+		out := c10Run1(id, f)
+		bs, err := gojq.Marshal(out)
+		c.Count("float")
+		if err != nil {
+			c.Violation("Marshal(%v + 0) error %v", f, err)
+			continue
+		}
+		s := string(bs)
+		switch {
+		case math.IsNaN(f):
+			if s != "null" {
+				c.Violation("NaN printed as %s", s)
+			}
+			continue
+		case math.IsInf(f, 1):
+			f = math.MaxFloat64
+		case math.IsInf(f, -1):
+			f = -math.MaxFloat64
+		}
+		if !jsonNumRe.MatchString(s) {
+			c.Violation("float bits %d printed as invalid JSON number %s", math.Float64bits(f), s)
+			continue
+		}
+		g, err := strconv.ParseFloat(s, 64)
+		if err != nil || g != f {
+			c.Violation("float bits %d printed as %s which reads back as %v", math.Float64bits(f), s, g)
+			continue
+		}
+		// shortest: same number of significant digits as strconv's shortest representation
+		sig := func(t string) int {
+			t = strings.TrimLeft(t, "-")
+			if k := strings.IndexAny(t, "eE"); k >= 0 {
+				t = t[:k]
+			}
+			t = strings.Replace(t, ".", "", 1)
+			t = strings.Trim(t, "0")
+			return len(t)
+		}
+		if want := sig(strconv.FormatFloat(f, 'e', -1, 64)); sig(s) != want {
+			c.Violation("float bits %d printed as %s: %d significant digits, shortest round-trip form has %d", math.Float64bits(f), s, sig(s), want)
+		}
+	}
 }
